@@ -164,6 +164,21 @@ func init() {
 			"NOT proved: that each pass reaches every nested occurrence (arrays, maps, union branches, struct fields): the recursive traversal of the shared Visitor is assumed; deep `anywhere in the IR` normal forms need recursive predicates over type trees, which this engine does not have; DisjunctionToType, AnonymousStructsToNamed, AnonymousEnumToExplicitType, the identifier rules of enum member names (string theory), and objects created by earlier passes are not under contract",
 		},
 	}
+	propSpecs["C10"] = &PropSpec{
+		ID:       "C10",
+		Patterns: []string{"./internal/jsonschema", "./internal/ast", "./internal/orderedmap", "./internal/tools"},
+		Level:    "proof",
+		Prepare:  func(e *Engine) { e.assumeKindInv = true },
+		Opts: func(e *Engine, key string) VerifyOpts {
+			return VerifyOpts{OnlyKinds: []string{"pre", "post", "frame", "inv-init", "inv-pres", "cover"}}
+		},
+		Extra: func(e *Engine, tier string) []*FuncResult { return []*FuncResult{e.unwrapFlowResult()} },
+		Assumptions: []string{
+			"scope: the IR side of the property for the JSON Schema front end only - a default/constant/enum value decoded by the schema library (json.Number for numbers) enters the IR as the Go number it denotes: unwrapJSONNumber(s) under contract (never returns a json.Number, leaves other values alone) plus def-use obligations over go/ssa that every library value reaching ast.Default / ast.Value / Type.Default / ScalarType.Value / EnumValue.Value in a walker that can hold numbers passes through it (walkString and walkBool are exempt)",
+			"NOT covered (generated-program behaviour, outside this technique): what the Go and Python default constructors print, agreement between the two languages, CUE and OpenAPI front ends, passes that move defaults",
+			"encoding/json.Number.Int64/Float64/String are assumed total functions returning values of the stated Go types",
+		},
+	}
 	propSpecs["C03"] = &PropSpec{
 		ID:       "C03",
 		Patterns: []string{"./..."},
